@@ -1448,3 +1448,137 @@ Proof.
     rewrite Hpends, removelast_last. unfold w_strp, w_pse. cbn [s_strp s_pse s_r s_file]. repeat split.
     rewrite Hlast, Hfl, pstr_snoc. unfold resize. rewrite to_nat_len. apply firstn_len_app.
 Qed.
+
+(* commit_path, step 1: "fill part_end_ until PATH if not filled" *)
+Definition mixf (ps : list str) (n a : nat) (j : nat) : N :=
+  if (j <? n)%nat || ((a <=? j)%nat && (j <=? 8)%nat) then pre (S j) ps else 0.
+Definition mix (ps : list str) (n a : nat) : list N := map (mixf ps n a) (seq 0 11).
+
+Lemma nth_mix ps n a j : (j < 11)%nat -> nth j (mix ps n a) 0 = mixf ps n a j.
+Proof.
+  intro Hj. unfold mix. rewrite (nth_indep _ 0 (mixf ps n a 0)) by (rewrite map_length, seq_length; exact Hj).
+  rewrite map_nth, seq_nth by exact Hj. reflexivity.
+Qed.
+
+Lemma mix_length ps n a : length (mix ps n a) = 11%nat.
+Proof. unfold mix. rewrite map_length, seq_length. reflexivity. Qed.
+
+Lemma ends_of_mix ps n m : length ps = 11%nat -> (n <= 11)%nat -> (9 <= m)%nat -> ends_of ps n = mix ps n m.
+Proof.
+  intros Hlen Hn Hm. apply (nth_ext _ _ 0 0); [rewrite ends_of_length, mix_length; lia|].
+  intros j Hj. rewrite ends_of_length in Hj by lia. rewrite nth_ends_of, nth_mix by lia. unfold mixf.
+  destruct (Nat.ltb_spec j n); cbn [orb]; [reflexivity|].
+  destruct (Nat.leb_spec m j); destruct (Nat.leb_spec j 8); cbn [andb]; try reflexivity. lia.
+Qed.
+
+Lemma fill_back_mix ps n f c : PW ps n -> forall ind, (ind <= 8)%nat ->
+  fill_back (mk_repr (concat ps) (mix ps n (S ind)) f c) ind (len (concat ps)) =
+  mk_repr (concat ps) (mix ps n (Nat.min (S ind) n)) f c.
+Proof.
+  intros [Hlen Hn Hsch Htail]. induction ind as [|p IH]; intro Hind.
+  - cbn [fill_back]. replace (Nat.min 1 n) with 1%nat by lia. reflexivity.
+  - cbn [fill_back]. unfold en, E. cbn [r_ends]. rewrite nth_mix by lia. unfold mixf.
+    destruct (Nat.ltb_spec (S p) n) as [Hlt|Hge]; cbn [orb].
+    + pose proof (pre_pos ps (S (S p)) Hsch ltac:(lia)). destruct (N.eqb_spec (pre (S (S p)) ps) 0); [lia|]. cbn [negb].
+      replace (Nat.min (S (S p)) n) with (S (S p)) by lia. reflexivity.
+    + destruct (Nat.leb_spec (S (S p)) (S p)); [lia|]. cbn [andb N.eqb negb].
+      replace (Nat.min (S (S p)) n) with (Nat.min (S p) n) by lia. rewrite <- IH by lia. f_equal.
+      unfold set_e, w_ends. cbn [r_norm r_ends r_flags r_segs]. f_equal.
+      apply (nth_ext _ _ 0 0); [rewrite upd_length, !mix_length; reflexivity|].
+      intros j Hj. rewrite upd_length, mix_length in Hj. rewrite nth_upd, mix_length, !nth_mix by lia. unfold mixf.
+      destruct (Nat.ltb_spec j 11); [|lia]. destruct (Nat.eqb_spec j (S p)) as [->|Hne]; cbn [andb].
+      * destruct (Nat.ltb_spec (S p) n); [lia|]. cbn [orb].
+        destruct (Nat.leb_spec (S p) (S p)); [|lia]. destruct (Nat.leb_spec (S p) 8); [|lia]. cbn [andb].
+        symmetry. apply (pre_tail ps n); [exact Htail|lia].
+      * destruct (Nat.ltb_spec j n); cbn [orb]; [reflexivity|].
+        destruct (Nat.leb_spec (S (S p)) j); destruct (Nat.leb_spec (S p) j); destruct (Nat.leb_spec j 8); cbn [andb]; try reflexivity; lia.
+Qed.
+
+Lemma fill_back_conc ps n f c : PW ps n ->
+  fill_back (conc ps n f c) P_PATH (len (concat ps)) = conc ps (Nat.max n 9) f c.
+Proof.
+  intro HPW. pose proof HPW as [Hlen Hn Hsch Htail]. unfold conc, P_PATH.
+  rewrite (ends_of_mix ps n 9) by lia. rewrite (fill_back_mix ps n f c HPW 8) by lia. f_equal.
+  apply (nth_ext _ _ 0 0); [rewrite ends_of_length, mix_length; lia|].
+  intros j Hj. rewrite mix_length in Hj. rewrite nth_ends_of, nth_mix by lia. unfold mixf.
+  destruct (Nat.ltb_spec j n); destruct (Nat.leb_spec (Nat.min 9 n) j); destruct (Nat.leb_spec j 8);
+    destruct (Nat.ltb_spec j (Nat.max n 9)); cbn [orb andb]; try reflexivity; lia.
+Qed.
+
+(* commit_path, steps 2-4: splice the path in, set the segment counter, adjust the "/." prefix *)
+Lemma part_view_conc ps n f c k : PW ps n -> (1 <= k < n)%nat ->
+  part_view (conc ps n f c) k = skipn (N.to_nat (kstart k)) (nth k ps []).
+Proof.
+  intros HPW Hk. pose proof HPW as [Hlen Hn Hsch Htail].
+  destruct k as [|k']; [lia|]. unfold part_view.
+  change (E (conc ps n f c) k') with (en (conc ps n f c) k'). change (E (conc ps n f c) (S k')) with (en (conc ps n f c) (S k')).
+  rewrite !en_conc by lia. destruct (Nat.ltb_spec k' n); [|lia]. destruct (Nat.ltb_spec (S k') n); [|lia].
+  unfold conc. cbn [r_norm].
+  rewrite (concat_split ps (S k')), (skipn_nth_cons ps (S k')) by lia. cbn [concat].
+  apply substr_part; [reflexivity|]. rewrite (pre_S (S k')) by lia. reflexivity.
+Qed.
+
+Lemma setp_same (ps : list str) k : (k < length ps)%nat -> setp ps k (nth k ps []) = ps.
+Proof.
+  intro Hk. apply (nth_ext _ _ [] []); [unfold setp; rewrite splice_length; try reflexivity; try assumption; lia|].
+  intros j Hj. rewrite nth_setp by lia. destruct (Nat.eqb_spec j k) as [->|]; reflexivity.
+Qed.
+
+Definition new_prefix (f : N) (segs : list str) : str :=
+  if negb (N.testbit f 5) && (1 <? N.of_nat (length segs)) then
+    match pstr segs with a :: b :: _ => if (a =? 47) && (b =? 47) then [47; 46] else [] | _ => [] end
+  else [].
+
+Theorem commit_path_conc ps n f c s segs :
+  PW ps n -> s_r s = conc ps n f c -> PI s segs ->
+  (nth P_PATH_PREFIX ps [] = [] \/ nth P_PATH_PREFIX ps [] = [47; 46]) ->
+  s_r (v_commit_path true s) =
+  conc (setp (setp ps P_PATH (pstr segs)) P_PATH_PREFIX (new_prefix f segs)) (Nat.max n 9) f (N.of_nat (length segs)).
+Proof.
+  intros HPW Hr [Hs Hp] Hpre. pose proof HPW as [Hlen Hn Hsch Htail].
+  unfold v_commit_path. cbn [w_r s_r]. rewrite Hr.
+  replace (len (r_norm (conc ps n f c))) with (len (concat ps)) by reflexivity.
+  rewrite (fill_back_conc ps n f c HPW).
+  set (n' := Nat.max n 9).
+  assert (HPW' : PW ps n').
+  { split; [exact Hlen|unfold n'; lia|exact Hsch|]. intros k Hk. apply Htail. unfold n' in Hk. lia. }
+  unfold replace_part1.
+  destruct (replace_part_conc ps n' f c 8 8 (s_strp s) 0 HPW' ltac:(lia) ltac:(unfold n'; lia) ltac:(intro; lia)) as [Hrp _].
+  change P_PATH with 8%nat. rewrite Hrp. fold (setp ps 8 (s_strp s)). rewrite Hs, Hp.
+  set (ps1 := setp ps 8 (pstr segs)).
+  assert (HPW1 : PW ps1 n').
+  { pose proof (setp_PW ps n' 8 (pstr segs) HPW' ltac:(lia)) as HP. replace (Nat.max n' 9) with n' in HP by (unfold n'; lia). exact HP. }
+  assert (Hl1 : length ps1 = 11%nat) by (destruct HPW1; assumption).
+  assert (Hcnt : N.of_nat (length (pends segs)) = N.of_nat (length segs)) by (unfold pends; rewrite pends_length; reflexivity).
+  rewrite Hcnt.
+  change (w_segs (conc ps1 n' f c) (N.of_nat (length segs))) with (conc ps1 n' f (N.of_nat (length segs))).
+  set (c' := N.of_nat (length segs)).
+  unfold adjust_path_prefix.
+  assert (Hnull : r_is_null (conc ps1 n' f c') P_HOST = negb (N.testbit f 5)) by reflexivity.
+  assert (Hsegs : r_segs (conc ps1 n' f c') = c') by reflexivity.
+  assert (Hpv : part_view (conc ps1 n' f c') P_PATH = pstr segs).
+  { rewrite part_view_conc by (auto; unfold P_PATH, n'; lia). unfold P_PATH, kstart. cbn [N.to_nat skipn].
+    unfold ps1. rewrite nth_setp by lia. reflexivity. }
+  assert (Hemp : r_is_empty (conc ps1 n' f c') P_PATH_PREFIX = (len (nth 7 ps []) <=? 0)).
+  { rewrite is_empty_conc by (auto; unfold P_PATH_PREFIX, n'; lia). unfold P_PATH_PREFIX, kstart, ps1.
+    rewrite nth_setp by lia. reflexivity. }
+  rewrite Hnull, Hsegs, Hpv, Hemp.
+  change (if negb (N.testbit f 5) && (1 <? c') then match pstr segs with a :: b :: _ => if (a =? 47) && (b =? 47) then [47; 46] else [] | _ => [] end else [])
+    with (new_prefix f segs).
+  unfold P_PATH_PREFIX in *.
+  destruct (replace_part_conc ps1 n' f c' 7 7 (new_prefix f segs) 0 HPW1 ltac:(lia) ltac:(unfold n'; lia) ltac:(intro; lia)) as [Hrp2 _].
+  fold (setp ps1 7 (new_prefix f segs)) in Hrp2.
+  assert (Hnp : new_prefix f segs = [] \/ new_prefix f segs = [47; 46]).
+  { unfold new_prefix. destruct (negb (N.testbit f 5) && (1 <? N.of_nat (length segs))); [|left; reflexivity].
+    destruct (pstr segs) as [|a [|b t]]; try (left; reflexivity).
+    destruct ((a =? 47) && (b =? 47)); [right|left]; reflexivity. }
+  assert (H7 : nth 7 ps1 [] = nth 7 ps []) by (unfold ps1; rewrite nth_setp by lia; reflexivity).
+  destruct Hpre as [Hold|Hold]; destruct Hnp as [Hnew|Hnew]; rewrite Hold, Hnew; cbn [len length N.of_nat N.leb N.compare Pos.of_succ_nat Pos.succ Pos.compare Pos.compare_cont Bool.eqb negb].
+  - (* empty, stays empty *)
+    assert (Hs7 : setp ps1 7 [] = ps1) by (rewrite <- Hold, <- H7; apply setp_same; lia).
+    rewrite Hs7. reflexivity.
+  - unfold replace_part1. rewrite <- Hnew. exact Hrp2.
+  - unfold replace_part1. rewrite <- Hnew. exact Hrp2.
+  - assert (Hs7 : setp ps1 7 [47; 46] = ps1) by (rewrite <- Hold, <- H7; apply setp_same; lia).
+    rewrite Hs7. reflexivity.
+Qed.
